@@ -1,3 +1,427 @@
-/- C07 — property theorems (stub: the property is not claimed yet). -/
+/-
+  C07 — indexes are transparent: indexed search equals unindexed search.
+
+  Property theorems only.  Model: AHP/Model/Index.lean (what the driver executes); invariant and helper
+  lemmas: AHP/Lemmas/Index.lean, AHP/Lemmas/IndexInv.lean; specification of the searches: C06
+  (`fil pred scope`, `parserScope`).
+
+  Reading guide.
+    `Idx.Good i`      the state is well formed (reachable): `indexFunctions` mirrors the four flags; the two
+                      dicts of the attribute indexes have the same keys.
+    `IdxInv i doc`    every installed map lists, per key, exactly the matching elements of `doc` in document
+                      order (`Idx.Holds i (creationOrder doc)`); maps of disabled indexes are not constrained
+                      (they are never read).
+    `Valid doc`       ids below the root are pairwise distinct (element identity) and no class list repeats a
+                      name.
+  C07a: parsing establishes `IdxInv` (the index is maintained while elements are created, in creation order).
+  C07b: `reindex` with any arguments — hence `setRoot` — establishes it for any document however edited, from
+        any reachable configuration (after `addIndexOnAttribute`, `removeIndexOnAttribute`, `disableIndexing`).
+  C07c: under `IdxInv` every lookup, for every `root=` argument and both values of `useIndex`, returns what the
+        unindexed search returns, which is the C06 specification.
+-/
+import AHP.Lemmas.IndexInv
+import AHP.Props.C06
 namespace AHP.C07
+open AHP AHP.Idx
+
+def IdxInv (i : Idx) (doc : Node) : Prop := Holds i (creationOrder doc)
+
+structure Valid (doc : Node) : Prop where
+  distinct : doc.Distinct
+  classes : ClassesNodup doc
+
+/-! #### every reachable configuration is well formed -/
+
+/-- The configuration operations of the class. -/
+inductive Cfg where
+  | addIndexOn (a : Str)
+  | removeIndexOn (a : Str)
+  | disable
+  | reindex (doc : Node) (a b c d : Option Bool)
+  | parse (doc : Node)
+
+def applyCfg (i : Idx) : Cfg → Idx
+  | .addIndexOn a => i.addIndexOn a
+  | .removeIndexOn a => i.removeIndexOn a
+  | .disable => i.disable
+  | .reindex doc a b c d => i.reindex doc a b c d
+  | .parse doc => i.parse doc
+
+theorem reindex_good {i : Idx} (h : Good i) (doc : Node) (a b c d : Option Bool) : Good (i.reindex doc a b c d) := by
+  simp only [Idx.reindex, indexRec_eq]
+  exact fold_good (reset_good (i := { i with indexIDs := optSet i.indexIDs a, indexNames := optSet i.indexNames b })
+    ⟨h.nodup, h.keys⟩) _
+
+theorem parse_good {i : Idx} (h : Good i) (doc : Node) : Good (i.parse doc) :=
+  fold_good (reset_good h.toKeys) _
+
+/-- All 16 flag combinations, any number of attribute indexes, any history of configuration operations. -/
+theorem reachable_good (a b c d : Bool) (ops : List Cfg) : Good (ops.foldl applyCfg (Idx.init a b c d)) := by
+  have key : ∀ (ops : List Cfg) (i : Idx), Good i → Good (ops.foldl applyCfg i) := by
+    intro ops
+    induction ops with
+    | nil => intro i h; exact h
+    | cons op ops ih =>
+      intro i h
+      apply ih
+      cases op with
+      | addIndexOn x => exact addIndexOn_good h x
+      | removeIndexOn x => exact removeIndexOn_good h x
+      | disable => exact disable_good h
+      | reindex doc p q r s => exact reindex_good h doc p q r s
+      | parse doc => exact parse_good h doc
+  exact key ops _ (init_good a b c d)
+
+/-! #### C07a — parsing maintains the index -/
+
+/-- `parseStr` on a parser in any reachable configuration (also one that held another document before:
+    `reset` clears every map): the index mirrors the new document. -/
+theorem parse_inv {i : Idx} (h : Good i) {doc : Node} (hc : ClassesNodup doc) : IdxInv (i.parse doc) doc := by
+  have := fold_holds (reset_good h.toKeys) (reset_holds i) (creationOrder doc) hc
+  simpa [IdxInv, Idx.parse] using this
+
+/-- The multi-root fallback: a first pass has indexed some elements `es` when `MultipleRootNodeException`
+    is raised; `reset` and the second pass give an index that mirrors the (wrapper-rooted) document. -/
+theorem parse_after_failed_pass {i : Idx} (h : Good i) (es : List Elem) {doc : Node} (hc : ClassesNodup doc) :
+    IdxInv ((es.foldl indexTag i.resetInternal).parse doc) doc :=
+  parse_inv (fold_good (reset_good h.toKeys) es) hc
+
+/-! #### C07b — reindex, for every document and configuration -/
+
+theorem reindex_inv {i : Idx} (h : Good i) {doc : Node} (hc : ClassesNodup doc) (a b c d : Option Bool) :
+    IdxInv (i.reindex doc a b c d) doc := by
+  simp only [IdxInv, Idx.reindex, indexRec_eq]
+  have := fold_holds (reset_good (i := { i with indexIDs := optSet i.indexIDs a, indexNames := optSet i.indexNames b })
+      ⟨h.nodup, h.keys⟩) (reset_holds _) (creationOrder doc) hc
+  simpa using this
+
+/-- `_indexTagRecursive` (reindex) and indexing at creation time (parse) build the same index. -/
+theorem reindex_eq_parse (i : Idx) (doc : Node) : i.reindex doc none none none none = i.parse doc := by
+  simp only [Idx.reindex, Idx.parse, indexRec_eq, optSet]
+
+/-- `removeIndexOnAttribute` needs no reindex: the remaining maps still mirror the document. -/
+theorem removeIndexOn_inv {i : Idx} {doc : Node} (h : IdxInv i doc) (a : Str) : IdxInv (i.removeIndexOn a) doc :=
+  removeIndexOn_holds h a
+
+/-! #### C07c — every lookup equals the unindexed search and the specification -/
+
+/-- The index path of the single-criterion lookups: restrict the document's matches to the subtree, wrap. -/
+theorem index_path' {doc : Node} (hd : doc.Distinct) (p : Elem → Bool) (arg : Option Node)
+    (ha : ∀ r, arg = some r → r ∈ doc.preorder) :
+    (TC.ofList (restrict doc (handleRootArg doc arg).2 (handleRootArg doc arg).1
+        (fil p doc.preorder))).items = fil p (parserScope doc arg) := by
+  rcases handleRootArg_cases doc arg with ⟨h1, h2⟩ | ⟨r, hr, h1, h2⟩
+  · rw [h1, h2]
+    simp only [restrict, if_true]
+    exact TC.ofList_items_of_nodup (uids_nodup_of_sublist (fil_sublist _ _) hd)
+  · rw [h1, h2]
+    simp only [restrict, Bool.false_eq_true, if_false]
+    have hr' := ha r hr
+    rw [restrict_desc hd hr' p]
+    exact TC.ofList_items_of_nodup
+      (uids_nodup_of_sublist (fil_sublist _ _) (Node.Distinct.desc (distinct_of_mem hd r hr')))
+
+theorem resolve_fil {doc : Node} (hd : doc.Distinct) (p : Elem → Bool) :
+    resolve doc (uidsOf (fil p doc.preorder)) = fil p doc.preorder :=
+  resolve_uids hd (fun y hy => (fil_sublist p _).subset hy)
+
+theorem index_path {doc : Node} (hd : doc.Distinct) (p : Elem → Bool) (arg : Option Node)
+    (ha : ∀ r, arg = some r → r ∈ doc.preorder) :
+    (TC.ofList (restrict doc (handleRootArg doc arg).2 (handleRootArg doc arg).1
+        (resolve doc (uidsOf (fil p doc.preorder))))).items = fil p (parserScope doc arg) := by
+  rw [resolve_fil hd]; exact index_path' hd p arg ha
+
+theorem scanRoot_distinct {doc : Node} (hd : doc.Distinct) (arg : Option Node)
+    (ha : ∀ r, arg = some r → r ∈ doc.preorder) : (scanRoot doc arg).Distinct := by
+  rcases handleRootArg_cases doc arg with ⟨h1, _⟩ | ⟨r, hr, h1, _⟩
+  · simp only [scanRoot, h1]; exact hd
+  · simp only [scanRoot, h1]; exact distinct_of_mem hd r (ha r hr)
+
+/-- getElementsByTagName. -/
+theorem byTagName_transparent {i : Idx} (hg : Good i) {doc : Node} (hi : IdxInv i doc) (hd : doc.Distinct)
+    (q : Str) (arg : Option Node) (ha : ∀ r, arg = some r → r ∈ doc.preorder) (useIndex : Bool) :
+    (idxByTagName i doc q arg useIndex).items = (byTagName q (.parser doc arg)).items ∧
+    (idxByTagName i doc q arg useIndex).items = fil (pTag q) (parserScope doc arg) := by
+  have hplain := C06.byTagName_parser q doc arg (scanRoot_distinct hd arg ha)
+  rw [hplain]
+  refine ⟨?_, ?_⟩ <;>
+  · simp only [idxByTagName]
+    by_cases hu : (useIndex && i.indexTagNames) = true
+    · have hf : i.fnTagNames = true := by rw [hg.sync.2.2.2]; simp at hu; exact hu.2
+      simp only [hu, if_true]
+      rw [hi.tags hf q, matchU_creationOrder]
+      exact index_path hd _ arg ha
+    · simp only [hu, if_false]; exact hplain
+
+/-- getElementsByName (searched value non-empty). -/
+theorem byName_transparent {i : Idx} (hg : Good i) {doc : Node} (hi : IdxInv i doc) (hd : doc.Distinct)
+    (q : Str) (hq : q ≠ []) (arg : Option Node) (ha : ∀ r, arg = some r → r ∈ doc.preorder) (useIndex : Bool) :
+    (idxByName i doc q arg useIndex).items = (byName q (.parser doc arg)).items ∧
+    (idxByName i doc q arg useIndex).items = fil (pAttr (str "name") q) (parserScope doc arg) := by
+  have hplain := C06.byName_parser q hq doc arg (scanRoot_distinct hd arg ha)
+  rw [hplain]
+  refine ⟨?_, ?_⟩ <;>
+  · simp only [idxByName]
+    by_cases hu : (useIndex && i.indexNames) = true
+    · have hf : i.fnNames = true := by rw [hg.sync.2.1]; simp at hu; exact hu.2
+      simp only [hu, if_true]
+      rw [hi.names hf q hq, matchU_creationOrder]
+      exact index_path hd _ arg ha
+    · simp only [hu, if_false]; exact hplain
+
+/-- getElementsByAttr, with or without an index on that attribute. -/
+theorem byAttr_transparent {i : Idx} (hg : Good i) {doc : Node} (hi : IdxInv i doc) (hd : doc.Distinct)
+    (a v : Str) (arg : Option Node) (ha : ∀ r, arg = some r → r ∈ doc.preorder) (useIndex : Bool) :
+    (idxByAttr i doc a v arg useIndex).items = (byAttr a v (.parser doc arg)).items ∧
+    (idxByAttr i doc a v arg useIndex).items = fil (pAttr a v) (parserScope doc arg) := by
+  have hplain := C06.byAttr_parser a v doc arg (scanRoot_distinct hd arg ha)
+  rw [hplain]
+  refine ⟨?_, ?_⟩ <;>
+  · simp only [idxByAttr]
+    cases hm : (if useIndex = true then i.other.lookup a else none) with
+    | none => exact hplain
+    | some m =>
+      have hl : i.other.lookup a = some m := by
+        by_cases hu : useIndex = true
+        · simpa [hu] using hm
+        · simp [hu] at hm
+      have hmem : a ∈ i.otherFns := (hg.keys a).mpr (by simp [hl])
+      simp only
+      rw [hi.others a m hmem hl v, matchU_creationOrder]
+      exact index_path hd _ arg ha
+
+/-- getElementsByClassName with the names `c :: rest`. -/
+theorem byClassName_transparent {i : Idx} (hg : Good i) {doc : Node} (hi : IdxInv i doc) (hd : doc.Distinct)
+    (q c : Str) (rest : List Str) (hw : classWords q = c :: rest)
+    (arg : Option Node) (ha : ∀ r, arg = some r → r ∈ doc.preorder) (useIndex : Bool) :
+    ∃ r, idxByClassName i doc q arg useIndex = some r ∧
+      r.items = fil (pAllClasses (c :: rest)) (parserScope doc arg) ∧
+      (byClassName q (.parser doc arg)).map TC.items = some r.items := by
+  obtain ⟨rp, hrp, hitems⟩ := C06.byClassName_parser q c rest hw doc arg (scanRoot_distinct hd arg ha)
+  simp only [idxByClassName]
+  by_cases hu : (useIndex && i.indexClassNames) = true
+  · have hf : i.fnClassNames = true := by rw [hg.sync.2.2.1]; simp at hu; exact hu.2
+    simp only [hu, if_true, hw]
+    have key : (TC.ofList (restrict doc (handleRootArg doc arg).2 (handleRootArg doc arg).1
+        (if rest.isEmpty = true then resolve doc (assocGet i.classNameMap c)
+         else (resolve doc (assocGet i.classNameMap c)).filter (fun n => pAllClasses rest n.elem)))).items
+        = fil (pAllClasses (c :: rest)) (parserScope doc arg) := by
+      rw [hi.classes hf c, matchU_creationOrder, resolve_fil hd, first_then_rest]
+      exact index_path' hd _ arg ha
+    refine ⟨_, rfl, key, ?_⟩
+    rw [hrp, Option.map_some, hitems, key]
+  · simp only [hu, if_false]
+    exact ⟨rp, hrp, hitems, by rw [hrp]; rfl⟩
+
+
+theorem scope_sublist {doc : Node} (arg : Option Node) (ha : ∀ r, arg = some r → r ∈ doc.preorder) :
+    (parserScope doc arg).Sublist doc.preorder := by
+  rcases handleRootArg_cases doc arg with ⟨_, h2⟩ | ⟨r, hr, _, h2⟩
+  · rw [h2]; exact List.Sublist.refl _
+  · rw [h2]
+    have := preorder_sublist_of_mem doc r (ha r hr)
+    rw [Node.preorder_eq r] at this
+    exact (List.sublist_cons_self _ _).trans this
+
+/-- getElementById (ids unique, searched value non-empty — as the property says). -/
+theorem byId_transparent {i : Idx} (hg : Good i) {doc : Node} (hi : IdxInv i doc) (hd : doc.Distinct)
+    (q : Str) (hq : q ≠ []) (huniq : (fil (pAttr (str "id") q) doc.preorder).length ≤ 1)
+    (arg : Option Node) (ha : ∀ r, arg = some r → r ∈ doc.preorder) (useIndex : Bool) :
+    idxById i doc q arg useIndex = byId q (.parser doc arg) ∧
+    idxById i doc q arg useIndex = (fil (pAttr (str "id") q) (parserScope doc arg)).head? := by
+  have hplain := C06.byId_parser q hq doc arg
+  rw [hplain]
+  refine ⟨?_, ?_⟩ <;>
+  · simp only [idxById]
+    by_cases hu : (useIndex && i.indexIDs) = true
+    · have hf : i.fnIDs = true := by rw [hg.sync.1]; simp at hu; exact hu.2
+      simp only [hu, if_true]
+      rw [hi.ids hf q hq, matchU_creationOrder]
+      have hsub : (fil (pAttr (str "id") q) (parserScope doc arg)).Sublist (fil (pAttr (str "id") q) doc.preorder) :=
+        (scope_sublist arg ha).filter _
+      cases hL : fil (pAttr (str "id") q) doc.preorder with
+      | nil =>
+        rw [hL] at hsub
+        simp [uidsOf, List.sublist_nil.mp hsub]
+      | cons a rest =>
+        have hrest : rest = [] := by
+          rw [hL] at huniq
+          simp at huniq
+          exact huniq
+        subst hrest
+        have ha_mem : a ∈ doc.preorder := (fil_sublist _ _).subset (hL ▸ List.mem_cons_self)
+        have hfind : doc.find? a.uid = some a := find?_mem a.uid doc hd a ha_mem rfl
+        simp only [uidsOf, List.map_cons, List.map_nil, List.getLast?_singleton, Option.bind_some, hfind]
+        rcases handleRootArg_cases doc arg with ⟨h1, h2⟩ | ⟨r, hr, h1, h2⟩
+        · rw [h1, h2, hL]; simp
+        · rw [h1, h2]
+          have := restrict_desc hd (ha r hr) (pAttr (str "id") q)
+          rw [hL] at this
+          rw [← this]
+          cases hh : hasTagInParentLine doc a.uid r <;> simp [hh]
+    · simp only [hu, if_false]; exact hplain
+
+/-- `value in set` on a possibly missing attribute. -/
+theorem pVals_iff (a : Str) (vs : List Str) (e : Elem) : pVals a vs e = true ↔ ∃ v ∈ vs, e.attr a = some v := by
+  simp only [pVals, optIn]
+  cases e.attr a with
+  | none => simp
+  | some w => simp
+
+theorem vals_fold {doc : Node} (hd : doc.Distinct) (m : List (Str × List Nat)) (a : Str)
+    (hm : ∀ v, assocGet m v = uidsOf (fil (pAttr a v) doc.preorder)) (vs : List Str) (acc : TC) :
+    vs.foldl (fun (acc : TC) v => acc.iadd (TC.ofList (resolve doc (assocGet m v))).items) acc
+      = acc.iadd (vs.flatMap (fun v => fil (pAttr a v) doc.preorder)) := by
+  induction vs generalizing acc with
+  | nil => simp [TC.iadd]
+  | cons v vs ih =>
+    simp only [List.foldl_cons, List.flatMap_cons, TC.iadd_append]
+    rw [ih, hm v, resolve_fil hd,
+      TC.ofList_items_of_nodup (uids_nodup_of_sublist (fil_sublist _ _) hd)]
+
+/-- getElementsWithAttrValues: answered from an attribute index the result is the same *set* of elements,
+    each once (grouped by value instead of document order); otherwise it is the plain search itself. -/
+theorem withAttrValues_transparent {i : Idx} (hg : Good i) {doc : Node} (hi : IdxInv i doc) (hd : doc.Distinct)
+    (a : Str) (vs : List Str) (arg : Option Node) (ha : ∀ r, arg = some r → r ∈ doc.preorder) (useIndex : Bool) :
+    (idxWithAttrValues i doc a vs arg useIndex).ids.Nodup ∧
+    ∀ u, u ∈ (idxWithAttrValues i doc a vs arg useIndex).ids ↔
+         u ∈ uidsOf (fil (pVals a vs) (parserScope doc arg)) := by
+  have hplain := C06.withAttrValues_parser a vs doc arg (scanRoot_distinct hd arg ha)
+  have hscope_nodup : (uidsOf (fil (pVals a vs) (parserScope doc arg))).Nodup :=
+    uids_nodup_of_sublist ((fil_sublist _ _).trans (scope_sublist arg ha)) hd
+  simp only [idxWithAttrValues]
+  cases hm : (if useIndex = true then i.other.lookup a else none) with
+  | none =>
+    have hids : (withAttrValues a vs (Recv.parser doc arg)).ids = uidsOf (fil (pVals a vs) (parserScope doc arg)) := by
+      simp only [TC.ids, hplain]
+    rw [hids]
+    exact ⟨hscope_nodup, fun _ => Iff.rfl⟩
+  | some m =>
+    have hl : i.other.lookup a = some m := by
+      by_cases hu : useIndex = true
+      · simpa [hu] using hm
+      · simp [hu] at hm
+    have hmem : a ∈ i.otherFns := (hg.keys a).mpr (by simp [hl])
+    have hmv : ∀ v, assocGet m v = uidsOf (fil (pAttr a v) doc.preorder) := fun v => by
+      rw [hi.others a m hmem hl v, matchU_creationOrder]
+    simp only
+    rw [vals_fold hd m a hmv vs TC.empty]
+    have hE := TC.ofList_spec (vs.flatMap (fun v => fil (pAttr a v) doc.preorder))
+    have hEeq : TC.empty.iadd (vs.flatMap (fun v => fil (pAttr a v) doc.preorder))
+        = TC.ofList (vs.flatMap (fun v => fil (pAttr a v) doc.preorder)) := rfl
+    rw [hEeq]
+    -- (A) every listed element is an element of the document carrying one of the values
+    have hA : ∀ n ∈ (TC.ofList (vs.flatMap (fun v => fil (pAttr a v) doc.preorder))).items,
+        n ∈ doc.preorder ∧ pVals a vs n.elem = true := by
+      intro n hn
+      rw [hE.2] at hn
+      have := (dedupN_sublist _ _).subset hn
+      obtain ⟨v, hv, hnv⟩ := List.mem_flatMap.mp this
+      have hnv' := List.mem_filter.mp hnv
+      exact ⟨hnv'.1, (pVals_iff a vs n.elem).mpr ⟨v, hv, (pAttr_eq a v n.elem).mp hnv'.2⟩⟩
+    -- (B) and every such element is listed
+    have hB : ∀ n ∈ doc.preorder, pVals a vs n.elem = true →
+        n ∈ (TC.ofList (vs.flatMap (fun v => fil (pAttr a v) doc.preorder))).items := by
+      intro n hn hp
+      obtain ⟨v, hv, hav⟩ := (pVals_iff a vs n.elem).mp hp
+      have h1 : n ∈ vs.flatMap (fun v => fil (pAttr a v) doc.preorder) :=
+        List.mem_flatMap.mpr ⟨v, hv, List.mem_filter.mpr ⟨hn, (pAttr_eq a v n.elem).mpr hav⟩⟩
+      have h2 : n.uid ∈ uidsOf (dedupN [] (vs.flatMap (fun v => fil (pAttr a v) doc.preorder))) :=
+        mem_dedupN_uid.mpr ⟨List.mem_map_of_mem h1, by simp⟩
+      obtain ⟨n', hn', hu'⟩ := mem_of_uid_mem h2
+      rw [← hE.2] at hn'
+      have : n' = n := eq_of_uid_eq hd (hA n' hn').1 hn hu'
+      exact this ▸ hn'
+    have hEnodup : (uidsOf (TC.ofList (vs.flatMap (fun v => fil (pAttr a v) doc.preorder))).items).Nodup :=
+      TC.ids_nodup hE.1
+    rcases handleRootArg_cases doc arg with ⟨h1, h2⟩ | ⟨r, hr, h1, h2⟩
+    · rw [h1, h2]
+      simp only [if_true, TC.ids]
+      refine ⟨hEnodup, ?_⟩
+      intro u
+      constructor
+      · intro hu
+        obtain ⟨n, hn, rfl⟩ := mem_of_uid_mem hu
+        exact List.mem_map_of_mem (List.mem_filter.mpr ⟨(hA n hn).1, (hA n hn).2⟩)
+      · intro hu
+        obtain ⟨n, hn, rfl⟩ := mem_of_uid_mem hu
+        have := List.mem_filter.mp hn
+        exact List.mem_map_of_mem (hB n this.1 this.2)
+    · rw [h1, h2]
+      simp only [Bool.false_eq_true, if_false, TC.ids]
+      have hr' := ha r hr
+      have hsubn : (uidsOf ((TC.ofList (vs.flatMap (fun v => fil (pAttr a v) doc.preorder))).items.filter
+          (fun x => hasTagInParentLine doc x.uid r))).Nodup :=
+        uids_nodup_of_sublist List.filter_sublist hEnodup
+      rw [TC.ofList_items_of_nodup hsubn]
+      refine ⟨hsubn, ?_⟩
+      have hdesc_sub : r.desc.Sublist doc.preorder := by
+        have := preorder_sublist_of_mem doc r hr'
+        rw [Node.preorder_eq r] at this
+        exact (List.sublist_cons_self _ _).trans this
+      intro u
+      constructor
+      · intro hu
+        obtain ⟨n, hn, rfl⟩ := mem_of_uid_mem hu
+        have hn' := List.mem_filter.mp hn
+        have hnA := hA n hn'.1
+        have hin := (hasTagInParentLine_iff hd hnA.1 hr').mp hn'.2
+        obtain ⟨n2, hn2, hu2⟩ := mem_of_uid_mem hin
+        have : n2 = n := eq_of_uid_eq hd (hdesc_sub.subset hn2) hnA.1 hu2
+        subst this
+        exact List.mem_map_of_mem (List.mem_filter.mpr ⟨hn2, hnA.2⟩)
+      · intro hu
+        obtain ⟨n, hn, rfl⟩ := mem_of_uid_mem hu
+        have hn' := List.mem_filter.mp hn
+        have hpre := hdesc_sub.subset hn'.1
+        refine List.mem_map_of_mem (List.mem_filter.mpr ⟨hB n hpre hn'.2, ?_⟩)
+        exact (hasTagInParentLine_iff hd hpre hr').mpr (List.mem_map_of_mem hn'.1)
+
+/-- The unindexed answer for the same query is that set in document order (C06). -/
+theorem withAttrValues_plain {doc : Node} (hd : doc.Distinct) (a : Str) (vs : List Str) (arg : Option Node)
+    (ha : ∀ r, arg = some r → r ∈ doc.preorder) (i : Idx) :
+    (idxWithAttrValues i doc a vs arg false).items = fil (pVals a vs) (parserScope doc arg) := by
+  simp only [idxWithAttrValues, Bool.false_eq_true, if_false]
+  exact C06.withAttrValues_parser a vs doc arg (scanRoot_distinct hd arg ha)
+
+/-! #### the whole class: a parser in any configuration, after parse or reindex, answers as the plain search -/
+
+/-- Right after parsing, for all 16 flag combinations, any attribute indexes added before, any query. -/
+theorem after_parse (a b c d : Bool) (attrs : List Str) {doc : Node} (hv : Valid doc)
+    (q : Str) (arg : Option Node) (ha : ∀ r, arg = some r → r ∈ doc.preorder) (useIndex : Bool) :
+    let i := (attrs.foldl Idx.addIndexOn (Idx.init a b c d)).parse doc
+    (idxByTagName i doc q arg useIndex).items = (byTagName q (.parser doc arg)).items := by
+  intro i
+  have hg0 : Good (attrs.foldl Idx.addIndexOn (Idx.init a b c d)) := by
+    have key : ∀ (attrs : List Str) (j : Idx), Good j → Good (attrs.foldl Idx.addIndexOn j) := by
+      intro attrs
+      induction attrs with
+      | nil => intro j h; exact h
+      | cons x xs ih => intro j h; exact ih _ (addIndexOn_good h x)
+    exact key attrs _ (init_good a b c d)
+  exact (byTagName_transparent (parse_good hg0 doc) (parse_inv hg0 hv.classes) hv.distinct q arg ha useIndex).1
+
+/-- After any edit history (the document is whatever it is now) and any reconfiguration, `reindex` — with
+    or without new flags — makes every lookup transparent again. -/
+theorem after_reindex {i : Idx} (hg : Good i) {doc : Node} (hv : Valid doc) (na nb nc nd : Option Bool)
+    (q : Str) (arg : Option Node) (ha : ∀ r, arg = some r → r ∈ doc.preorder) (useIndex : Bool) :
+    (idxByTagName (i.reindex doc na nb nc nd) doc q arg useIndex).items = (byTagName q (.parser doc arg)).items :=
+  (byTagName_transparent (reindex_good hg doc na nb nc nd) (reindex_inv hg hv.classes na nb nc nd) hv.distinct
+    q arg ha useIndex).1
+
+/-! #### Non-vacuity -/
+section Examples
+open C06
+def cfgX : Idx := ((Idx.init true true true true).addIndexOn (str "title")).parse docX
+
+example : docX.Distinct ∧ ClassesNodup docX := by
+  refine ⟨by unfold Node.Distinct; decide, ?_⟩
+  intro e he
+  simp only [creationOrder, creationOrderL, docX, List.mem_cons, List.append_nil, List.mem_nil_iff, or_false] at he
+  rcases he with rfl | rfl | rfl <;> decide
+example : (idxByTagName cfgX docX (str "p") none true).ids = [1, 2] := by decide
+example : (idxByClassName cfgX docX (str "b  a") (some (.mk eB [.mk eC []])) true).map TC.ids = some [2] := by decide
+example : (idxById cfgX docX (str "r") none true).map Node.uid = some 0 := by decide
+end Examples
+
 end AHP.C07
